@@ -285,6 +285,45 @@ def sibling_name_designs():
         yield (f"sibling-names/{''.join(order)}", mk(order))
 
 
+def portless_leaf_designs():
+    """leaf devices WITHOUT terminals (fill / marker cells: an external module with an empty port list) at the top, one and
+    two levels down, next to ordinary devices and alone in a cell of their own: "one instance per leaf device" counts them"""
+    import hdl21 as h
+
+    def mk(where, n):
+        def b():
+            Fill = h.ExternalModule(name="Fill0", port_list=[], desc="", domain="fill")
+            cell = h.Module(name="PlCell")
+            cell.a, cell.z = h.Port(), h.Port()
+            cell.r = h.R(r=1)(p=cell.a, n=cell.z)
+            only = h.Module(name="PlOnly")          # a cell holding nothing but fill
+            for k in range(n):
+                only.add(Fill()(), name=f"f{k}")
+            if "cell" in where:
+                for k in range(n):
+                    cell.add(Fill()(), name=f"fill{k}")
+            if "deep" in where:
+                cell.o = only()
+            mid = h.Module(name="PlMid")
+            mid.a, mid.z, mid.m = h.Port(), h.Port(), h.Signal()
+            mid.c0 = cell(a=mid.a, z=mid.m)
+            mid.c1 = cell(a=mid.m, z=mid.z)
+            if "mid" in where:
+                mid.fill = Fill()()
+            top = h.Module(name="PlTop")
+            top.a, top.z = h.Port(), h.Port()
+            top.u = mid(a=top.a, z=top.z)
+            if "top" in where:
+                top.fill = Fill()()
+            if "own" in where:
+                top.o = only()
+            return top
+        return b
+    for where in ("cell", "mid", "top", "own", "deep", "cell+mid+top", "cell+own+deep", "top+own"):
+        for n in (1, 2):
+            yield (f"flat/portless/{where}/n{n}", mk(where, n))
+
+
 def flat_top_designs():
     """single-level tops (only leaf devices below them) that have NOT been elaborated and use what elaboration resolves:
     arrays, port references, no-connects, bundles, instance pairs; the `invalid/` ones must be refused"""
@@ -430,7 +469,7 @@ def run(ctx):
     ctx.assumptions.append("flattened-name injectivity is proved for paths of up to 3 instances (arity unrolled); walk() "
                            "itself (a recursive generator) and flatten()'s assembly loops are decided by the bounded part")
     fam = [d for k, d in enumerate(design_family(ctx.tier, ctx.seed)) if ctx.tier == "thorough" or k % 3 == 0]
-    cases = itertools.chain(hier_designs(ctx.tier, ctx.seed), flat_top_designs(), shared_module_designs(), attribute_named_pin_designs(), sibling_name_designs(), fam)
+    cases = itertools.chain(hier_designs(ctx.tier, ctx.seed), flat_top_designs(), portless_leaf_designs(), shared_module_designs(), attribute_named_pin_designs(), sibling_name_designs(), fam)
     ctx.run_bounded("flatten-vs-original", cases, check_flatten,
                     rule="generated scalar/bus hierarchies (depth 1-3, primitive and external-module leaves, internal "
                          "nets at every level, ports passed through levels, names colliding with ':'-joined paths) plus "
@@ -439,7 +478,7 @@ def run(ctx):
                          "with slices/concats; single-level tops not elaborated before the call that use arrays, port references, "
                          "no-connects, bundles and pairs (the result as returned holds leaf instances on nets only), and "
                          "three that elaboration refuses (flatten must refuse them too); one module instantiated three times with different port "
-                         "maps (two ports tied / separate / all on one net / crossed) in every order, one and two levels deep (48); distinct = distinct design; non-trivial = depth >= 2 or bus",
+                         "maps (two ports tied / separate / all on one net / crossed) in every order, one and two levels deep (48); leaf devices without terminals (fill cells) at every level and in cells of their own (16); distinct = distinct design; non-trivial = depth >= 2 or bus",
                     bound="depth<=3", key_of=lambda c: c[0], nontrivial=lambda c: "/d1/" not in c[0])
     return INFO
 
